@@ -24,7 +24,8 @@
  *   F:<num>:<str-hex>    number: exact value (see put_num) and libyang's own conversion to string of it
  *   B:0 | B:1
  *   E<rc>                evaluation or parse error (LY_ERR number; 7 = LY_EVALID)
- * followed by ` A:<ok|DIFF>` telling whether lyd_eval_xpath4() reports the same type and value (element nodes only).
+ * followed by ` A:<ok|DIFF>` telling whether lyd_eval_xpath4() reports the same type and value (element nodes only),
+ * and in AddressSanitizer builds by ` LEAK` when the case left unreachable memory behind.
  *
  * Numbers are printed exactly: nan, inf, -inf, -0, or <sign><odd mantissa>p<binary exponent> (long double has a 64-bit
  * mantissa, so this is exact), 0 for +0.
@@ -35,6 +36,18 @@
 #include "common.h"
 #include <math.h>
 #include "xpath.c"
+
+/* under AddressSanitizer the leak checker runs after every case: a leak is reported on the line of its case */
+#if defined(__SANITIZE_ADDRESS__)
+# define T_XPATH_LSAN 1
+#elif defined(__has_feature)
+# if __has_feature(address_sanitizer)
+#  define T_XPATH_LSAN 1
+# endif
+#endif
+#ifdef T_XPATH_LSAN
+int __lsan_do_recoverable_leak_check(void);
+#endif
 
 static void
 log_cb(LY_LOG_LEVEL level, const char *msg, const char *data_path, const char *schema_path, uint64_t line)
@@ -435,6 +448,11 @@ main(void)
         } else {
             printf("?");
         }
+#ifdef T_XPATH_LSAN
+        if (__lsan_do_recoverable_leak_check()) {
+            printf(" LEAK");
+        }
+#endif
         VEND();
     }
     lyd_free_all(g_tree);
